@@ -525,6 +525,8 @@ def replay_runs_ahead(limits, reset_rate, direction, model, tol=0):
 
 
 def replay_unnecessary_delay(limits, reset_rate, direction, model, tol=0):
+    from fractions import Fraction
+
     r = replay_single(limits, reset_rate, direction, model)
     overs = sum(_vals(model, "over"))
     s0 = r["starts"][0]
@@ -535,12 +537,61 @@ def replay_unnecessary_delay(limits, reset_rate, direction, model, tol=0):
             req = b
             for L in limits:
                 if L:
-                    req = max(req, s0 + total / L)
+                    req = max(req, s0 + Fraction(total) / Fraction(L))
             late = s - (req + overs)
             if late > tol:
                 worst = max(worst or 0, late)
         total += r["sizes"][i]
     return worst
+
+
+def fallback_sweep(grid):
+    """Used ONLY when the interpreter meets a construct it does not model (the z3 kernel is then inconclusive): concrete
+    schedules on the real classes in exact rationals - greedy back-to-back I/O, idle gaps around the reset period, two
+    streams alternating under a shared limit with and without private limits.  Sampling, not a solver verdict.
+    -> (number of schedules, [(kind, limits, reset_rate, direction, {"model":..., "order":...})] that violate a bound)"""
+    def model(ns, gaps, durs=None, overs=None):
+        m = {}
+        for i, v in enumerate(ns):
+            m[f"n{i}"] = str(v)
+        for i, v in enumerate(gaps):
+            m[f"gap{i}"] = str(v)
+        for i, v in enumerate(durs or [0] * len(ns)):
+            m[f"dur{i}"] = str(v)
+        for i, v in enumerate(overs or [0] * (2 * len(ns))):
+            m[f"over{i}"] = str(v)
+        return m
+
+    n, bad = 0, []
+    sizes = [[64] * 5, [1, 64, 1, 64, 1], [7, 7, 7, 7, 7]]
+    gapsets = [[0] * 5, [0, "21/2", 0, "19/2", 0], [0, 0, 11, 0, 0], ["1/3"] * 5]
+    stacks = [[L] for L in grid] + [[a, b] for a in grid[:3] for b in grid[:3] if a != b]
+    for limits in stacks:
+        for R in (1, 10):
+            for direction in ("read", "write"):
+                for ns in sizes:
+                    for gaps in gapsets:
+                        n += 1
+                        m = model(ns, gaps)
+                        try:
+                            if replay_runs_ahead(limits, R, direction, m) is not None:
+                                bad.append(("ahead", limits, R, direction, {"model": m}))
+                            elif replay_unnecessary_delay(limits, R, direction, m) is not None:
+                                bad.append(("unnecessary-delay", limits, R, direction, {"model": m}))
+                        except Exception:  # noqa: BLE001  a crash of the real classes on a plain schedule is a finding of its own kind
+                            bad.append(("ahead", limits, R, direction, {"model": m}))
+    orders = [["A0w", "A0a", "B0w", "B0a", "A1w", "A1a", "B1w", "B1a"], ["A0w", "B0w", "A0a", "B0a", "A1w", "B1w", "A1a", "B1a"]]
+    for G, Pl in [(3, None), (3, 2), (1000, 600)]:
+        for order in orders:
+            for ns in ([64, 64, 64, 64], [41, 21, 21, 41]):
+                n += 1
+                m = model(ns, [0, 0, 0, 0])
+                try:
+                    if replay_shared(G, 10, order, m, private=Pl) is not None:
+                        bad.append(("shared", [G] + ([Pl] if Pl else []), 10, "read", {"model": m, "order": order}))
+                except Exception:  # noqa: BLE001
+                    bad.append(("shared", [G] + ([Pl] if Pl else []), 10, "read", {"model": m, "order": order}))
+    return n, bad
 
 
 def replay_main(argv):
